@@ -108,6 +108,11 @@ TABLE = {
                      "denotation (type filter + one equality per field) and against each other.",
                 technique="TLA+ denotational spec (FieldsHold, IsInst) + TLC-enumerated terms replayed in both forms + TLC trace validation",
                 ref="7 C13"),
+    "C12": dict(text="TLC's builder machine (Add, with refinement, with alternative, leave block) enumerates every rule-tree shape up "
+                     "to 3-4 branches x branch conditions over the base's variables (1 and 2 variables) and random-walks to 6 "
+                     "branches; each tree is built through the API and evaluated; TLC's ripple-down interpreter Fire computes, per "
+                     "assignment, which tagged conclusion must be produced and compares the multiset.",
+                technique="TLA+ reference interpreter (Fire) + TLC-generated rule trees replayed + TLC trace validation", ref="7 C12"),
 }
 
 REASON_PENDING = "check not built yet (work in progress; see DESIGN.md section 10)"
